@@ -124,7 +124,7 @@ func runCrash(o *Out, r *rand.Rand, thorough bool, _ []string) {
 		var node enode.ID
 		r.Read(node[:])
 		capMB := uint64(1)
-		nPuts := 8 + r.Intn(6)
+		nPuts := 12 + r.Intn(6)
 		var puts []crashPut
 		for i := 0; i < nPuts; i++ {
 			id := make([]byte, 32)
